@@ -34,6 +34,9 @@ pub struct Occ {
     pub blank_after: bool,
     #[serde(default)]
     pub pad: bool,
+    /// this occurrence's line(s) end in CRLF instead of LF (mixed separators)
+    #[serde(default)]
+    pub crlf: bool,
 }
 
 #[derive(Serialize, Deserialize, Clone, Debug, PartialEq)]
@@ -47,6 +50,10 @@ pub enum TextMut {
     BlankAfter { i: usize },
     Pad { i: usize },
     Crlf,
+    /// CRLF line ending for occurrence i only (mixed separators)
+    CrlfAt { i: usize },
+    /// append legal characters to the content of occurrence i (mod n); `last` targets the last field
+    Append { i: usize, last: bool, suffix: String },
 }
 
 #[derive(Serialize, Deserialize, Clone, Debug, PartialEq)]
@@ -72,6 +79,10 @@ pub enum Req {
     Retokenise,
     Split { cfg: usize },
     Repetitive { marker: TagRef },
+    /// claim the nth still unconsumed occurrence of a key directly (out-of-order mark_consumed)
+    MarkAhead { tag: TagRef, nth: usize },
+    /// split with config `cfg`, then run the finder on sequence `seq` (0=A,1=B,2=C) with the shared tracker
+    FindInSeq { cfg: usize, seq: usize, tag: TagRef, constraint: Option<Vec<String>> },
 }
 
 #[derive(Serialize, Deserialize, Clone, Debug, PartialEq)]
@@ -155,14 +166,18 @@ pub fn ref_tokenise(b4: &str) -> Option<Vec<(String, String)>> {
 fn render(occs: &[Occ], crlf: bool) -> String {
     let mut s = String::from("\n");
     for o in occs {
-        s.push_str(&format!(":{}:{}", o.tag, o.content));
+        let mut f = format!(":{}:{}", o.tag, o.content);
         if o.pad {
-            s.push_str("  ");
+            f.push_str("  ");
         }
-        s.push('\n');
+        f.push('\n');
         if o.blank_after {
-            s.push('\n');
+            f.push('\n');
         }
+        if o.crlf && !crlf {
+            f = f.replace('\n', "\r\n");
+        }
+        s.push_str(&f);
     }
     if crlf { s.replace('\n', "\r\n") } else { s }
 }
@@ -190,13 +205,18 @@ fn apply_text_muts(occs: &mut Vec<Occ>, muts: &[TextMut], crlf: &mut bool) {
                 }
             }
             TextMut::Insert { j, tag, content } => {
-                occs.insert(j % (n + 1), Occ { tag: tag.clone(), content: content.clone(), blank_after: false, pad: false })
+                occs.insert(j % (n + 1), Occ { tag: tag.clone(), content: content.clone(), blank_after: false, pad: false, crlf: false })
             }
             TextMut::Delete { i } => {
                 occs.remove(i % n);
             }
             TextMut::BlankAfter { i } => occs[i % n].blank_after = true,
             TextMut::Pad { i } => occs[i % n].pad = true,
+            TextMut::CrlfAt { i } => occs[i % n].crlf = true,
+            TextMut::Append { i, last, suffix } => {
+                let k = if *last { n - 1 } else { i % n };
+                occs[k].content.push_str(suffix);
+            }
         }
     }
 }
@@ -210,6 +230,7 @@ enum Resp {
     Tokenised(Result<Vec<(String, String, usize)>, String>, bool),
     Split(Result<[Vec<(String, String, usize)>; 3], String>, bool),
     Items(Result<Vec<Vec<(String, String, usize)>>, String>, bool),
+    FoundIn(Result<([Vec<(String, String, usize)>; 3], bool, Option<(String, Option<String>, usize)>), String>),
     Panicked(String),
 }
 
@@ -222,6 +243,7 @@ enum Cmd {
     Retokenise,
     Split(SequenceConfig),
     Repetitive(String),
+    FindIn(SequenceConfig, usize, String, Option<Vec<String>>),
     Quit,
 }
 
@@ -244,26 +266,38 @@ fn flatten(m: &FieldMap) -> (Vec<(String, String, usize)>, bool) {
 }
 
 fn consumer_loop(text: String, tracker: Arc<Mutex<FieldConsumptionTracker>>, rx: mpsc::Receiver<Cmd>, tx: mpsc::Sender<Resp>) {
-    let mut map: FieldMap = HashMap::new();
-    let mut have_map = false;
+    // no entropy may be drawn before the scheduler hands this thread its first
+    // command (a `HashMap::new()` here would key the map at thread start-up, in
+    // an order the scheduler does not decide)
+    let mut map_slot: Option<FieldMap> = None;
     while let Ok(cmd) = rx.recv() {
         if matches!(cmd, Cmd::Quit) {
             break;
         }
         let r = std::panic::catch_unwind(std::panic::AssertUnwindSafe(|| {
-            if !have_map && !matches!(cmd, Cmd::Retokenise) {
-                if let Ok(m) = parse_block4_fields(&text) {
-                    map = m;
-                    have_map = true;
-                }
+            if map_slot.is_none() && !matches!(cmd, Cmd::Retokenise) {
+                map_slot = parse_block4_fields(&text).ok();
             }
+            if let Cmd::Retokenise = cmd {
+                return match parse_block4_fields(&text) {
+                    Ok(m) => {
+                        let (f, ord) = flatten(&m);
+                        map_slot = Some(m);
+                        Resp::Tokenised(Ok(f), ord)
+                    }
+                    Err(e) => Resp::Tokenised(Err(format!("{e}")), true),
+                };
+            }
+            let Some(map) = map_slot.as_ref() else {
+                return Resp::Tokenised(Err("tokeniser rejected the text".into()), true);
+            };
             match cmd {
                 Cmd::Find(base, cons, numbered) => {
                     let mut t = tracker.lock().unwrap();
                     let cons_refs: Option<Vec<&str>> = cons.as_ref().map(|c| c.iter().map(|s| s.as_str()).collect());
                     let r = match numbered {
-                        Some(nt) => find_field_with_variant_sequential_numbered(&map, &base, &mut t, cons_refs, &nt),
-                        None => find_field_with_variant_sequential_constrained(&map, &base, &mut t, cons_refs.as_deref()),
+                        Some(nt) => find_field_with_variant_sequential_numbered(map, &base, &mut t, cons_refs, &nt),
+                        None => find_field_with_variant_sequential_constrained(map, &base, &mut t, cons_refs.as_deref()),
                     };
                     Resp::Found(r)
                 }
@@ -293,16 +327,8 @@ fn consumer_loop(text: String, tracker: Arc<Mutex<FieldConsumptionTracker>>, rx:
                     *t = c;
                     Resp::Done
                 }
-                Cmd::Retokenise => match parse_block4_fields(&text) {
-                    Ok(m) => {
-                        let (f, ord) = flatten(&m);
-                        map = m;
-                        have_map = true;
-                        Resp::Tokenised(Ok(f), ord)
-                    }
-                    Err(e) => Resp::Tokenised(Err(format!("{e}")), true),
-                },
-                Cmd::Split(cfg) => match split_into_sequences(&map, &cfg) {
+                Cmd::Retokenise => Resp::Done,
+                Cmd::Split(cfg) => match split_into_sequences(map, &cfg) {
                     Ok(ps) => {
                         let (a, oa) = flatten(&ps.sequence_a);
                         let (b, ob) = flatten(&ps.sequence_b);
@@ -311,7 +337,24 @@ fn consumer_loop(text: String, tracker: Arc<Mutex<FieldConsumptionTracker>>, rx:
                     }
                     Err(e) => Resp::Split(Err(format!("{e}")), true),
                 },
-                Cmd::Repetitive(marker) => match parse_repetitive_sequence::<swift_mt_message::messages::MT101>(&map, &marker) {
+                Cmd::FindIn(cfg, seq, base, cons) => match split_into_sequences(map, &cfg) {
+                    Ok(ps) => {
+                        let (a, oa) = flatten(&ps.sequence_a);
+                        let (b, ob) = flatten(&ps.sequence_b);
+                        let (c, oc) = flatten(&ps.sequence_c);
+                        let sub = match seq % 3 {
+                            0 => &ps.sequence_a,
+                            1 => &ps.sequence_b,
+                            _ => &ps.sequence_c,
+                        };
+                        let mut t = tracker.lock().unwrap();
+                        let cons_refs: Option<Vec<&str>> = cons.as_ref().map(|c| c.iter().map(|s| s.as_str()).collect());
+                        let r = find_field_with_variant_sequential_constrained(sub, &base, &mut t, cons_refs.as_deref());
+                        Resp::FoundIn(Ok(([a, b, c], oa && ob && oc, r)))
+                    }
+                    Err(e) => Resp::FoundIn(Err(format!("{e}"))),
+                },
+                Cmd::Repetitive(marker) => match parse_repetitive_sequence::<swift_mt_message::messages::MT101>(map, &marker) {
                     Ok(items) => {
                         let mut ord = true;
                         let v = items
@@ -364,11 +407,19 @@ impl Model {
     }
     /// (index, variant letter, constraint excluded an earlier candidate)
     fn expect_find(&self, base: &str, cons: &Option<Vec<String>>) -> (Option<(usize, Option<String>)>, bool) {
-        if let Some(i) = self.next_for_key(base) {
+        self.expect_find_in(base, cons, None)
+    }
+    /// same, restricted to the occurrences whose stamps are in `only` (a sequence of a split)
+    fn expect_find_in(&self, base: &str, cons: &Option<Vec<String>>, only: Option<&BTreeSet<usize>>) -> (Option<(usize, Option<String>)>, bool) {
+        let inside = |f: &(String, String, usize)| only.is_none_or(|o| o.contains(&f.2));
+        if let Some(i) = self.flat.iter().position(|f| f.0 == base && inside(f) && !self.is_consumed(base, f.2)) {
             return (Some((i, None)), false);
         }
         let mut excluded = false;
         for (i, f) in self.flat.iter().enumerate() {
+            if !inside(f) {
+                continue;
+            }
             if f.0.len() == base.len() + 1 && f.0.starts_with(base) && !self.is_consumed(&f.0, f.2) {
                 let l = f.0.chars().last().unwrap();
                 if l.is_ascii_uppercase() {
@@ -491,12 +542,13 @@ struct Phase {
     counters: BTreeMap<String, u64>,
     variant_responses: u64,
     consuming_successes: usize,
+    claimed_directly: usize,
     n: usize,
 }
 
 /// One operations phase: consumers on fresh threads under hash entropy `e_h`.
 fn run_phase(ctx: &Arc<seam::RunCtx>, e_h: u64, text: &str, occs: &[(String, String)], spec: &Spec, rotate: usize) -> Phase {
-    let mut ph = Phase { history: vec![], violation: None, discard: None, counters: BTreeMap::new(), variant_responses: 0, consuming_successes: 0, n: occs.len() };
+    let mut ph = Phase { history: vec![], violation: None, discard: None, counters: BTreeMap::new(), variant_responses: 0, consuming_successes: 0, claimed_directly: 0, n: occs.len() };
     ctx.rekey_entropy(e_h);
     let k = spec.consumers.clamp(1, 4);
     let tracker = Arc::new(Mutex::new(FieldConsumptionTracker::new()));
@@ -638,6 +690,57 @@ fn run_phase(ctx: &Arc<seam::RunCtx>, e_h: u64, text: &str, occs: &[(String, Str
                     }
                 }
             }
+            Req::MarkAhead { tag, nth } => {
+                let key = resolve_tag(tag, &flat);
+                let open: Vec<usize> = flat.iter().filter(|f| f.0 == key && !model.is_consumed(&key, f.2)).map(|f| f.2).collect();
+                if !open.is_empty() {
+                    let pos = open[nth % open.len()];
+                    call(c, Cmd::Mark(key.clone(), pos));
+                    model.mark(&key, pos);
+                    ph.claimed_directly += 1;
+                    if pos != open[0] {
+                        count(&mut ph, "probe.out_of_order_claim");
+                    }
+                    count(&mut ph, "ops.mark_ahead");
+                    ph.history.push(format!("{si} c{c} mark_ahead({key},{pos})"));
+                }
+            }
+            Req::FindInSeq { cfg, seq, tag, constraint } => {
+                let (name, cf) = &cfgs[cfg % cfgs.len()];
+                let base = resolve_tag(tag, &flat);
+                match call(c, Cmd::FindIn(cf.clone(), *seq, base.clone(), constraint.clone())) {
+                    Resp::FoundIn(Ok((parts, ord, got))) => {
+                        count(&mut ph, "ops.find_in_sequence");
+                        if let Some(v) = t4_split_check(name, &flat, &parts, ord) {
+                            ph.violation = Some(v);
+                            break;
+                        }
+                        let only: BTreeSet<usize> = parts[seq % 3].iter().map(|f| f.2).collect();
+                        let (exp, _) = model.expect_find_in(&base, constraint, Some(&only));
+                        let expv = exp.as_ref().map(|(i, l)| (flat[*i].1.clone(), l.clone(), flat[*i].2));
+                        ph.history.push(format!("{si} c{c} find_in({name},{},{base},{constraint:?}) -> {}", ["A", "B", "C"][seq % 3], match &got { Some((_, l, p)) => format!("stamp {p} var {l:?}"), None => "None".into() }));
+                        if got != expv {
+                            ph.violation = Some(viol(
+                                "C16/T2 sequential consumption inside a split sequence",
+                                format!("step {si}: find(base={base}, constraint={constraint:?}) on sequence {} of split {name} with the shared tracker expected {:?}, got {:?}", ["A", "B", "C"][seq % 3], expv.as_ref().map(|e| (e.2, &e.1, &e.0)), got.as_ref().map(|g| (g.2, &g.1, &g.0))),
+                            ));
+                            break;
+                        }
+                        if let Some((i, l)) = &exp {
+                            let key = flat[*i].0.clone();
+                            model.mark(&key, flat[*i].2);
+                            ph.consuming_successes += 1;
+                            if l.is_some() {
+                                ph.variant_responses += 1;
+                            }
+                            count(&mut ph, "probe.resp_found_in_split_sequence");
+                        }
+                    }
+                    Resp::FoundIn(Err(e)) => ph.violation = Some(viol("C16/T4 split fails", format!("config {name}: {e}"))),
+                    Resp::Panicked(p) => ph.discard = Some(format!("panic in find-in-sequence: {}", p.chars().take(80).collect::<String>())),
+                    _ => {}
+                }
+            }
             Req::Remark { nth } => {
                 if !model.consumed_list.is_empty() {
                     let (key, pos) = model.consumed_list[nth % model.consumed_list.len()].clone();
@@ -721,8 +824,8 @@ fn run_phase(ctx: &Arc<seam::RunCtx>, e_h: u64, text: &str, occs: &[(String, Str
     // T3: after the drain every occurrence was handed out exactly once
     if spec.drain && ph.violation.is_none() && ph.discard.is_none() {
         let handed: usize = flat.iter().filter(|f| model.is_consumed(&f.0, f.2)).count();
-        if handed != flat.len() || ph.consuming_successes != flat.len() {
-            ph.violation = Some(viol("C16/T3 drain", format!("{} occurrences, {} handed out in {} successful responses", flat.len(), handed, ph.consuming_successes)));
+        if handed != flat.len() || ph.consuming_successes + ph.claimed_directly != flat.len() {
+            ph.violation = Some(viol("C16/T3 drain", format!("{} occurrences, {} handed out in {} successful responses + {} direct claims", flat.len(), handed, ph.consuming_successes, ph.claimed_directly)));
         }
     }
     for tx in &cmd_tx {
@@ -750,7 +853,7 @@ impl Engine for C16 {
         let mut text_muts = vec![];
         for _ in 0..n_muts {
             let (a, b) = (w.below(1000), w.below(1000));
-            text_muts.push(match w.below(16) {
+            text_muts.push(match w.below(20) {
                 0..=2 => TextMut::Dup { i: a, j: b },
                 3 | 4 => TextMut::Swap { i: a, j: b },
                 5..=8 => TextMut::Letter { i: a, letter: (*w.pick(&["A", "B", "C", "D", "F", "K", "L", ""])).to_string() },
@@ -762,7 +865,9 @@ impl Engine for C16 {
                 11 | 12 => TextMut::Delete { i: a },
                 13 => TextMut::BlankAfter { i: a },
                 14 => TextMut::Pad { i: a },
-                _ => TextMut::Crlf,
+                15 => TextMut::Crlf,
+                16 | 17 => TextMut::CrlfAt { i: a },
+                _ => TextMut::Append { i: a, last: w.chance(1, 2), suffix: (*w.pick(&["-", " -", ".", ",", "/", ":", "-X", "\n-", "\n/-"])).to_string() },
             });
         }
         let consumers = 1 + s.below(4);
@@ -781,7 +886,7 @@ impl Engine for C16 {
                 let k = 1 + w.below(4);
                 Some((0..k).map(|_| (*w.pick(LETTERS)).to_string()).collect())
             };
-            let req = match w.below(40) {
+            let req = match w.below(46) {
                 0..=21 => Req::Find { tag, constraint },
                 22..=24 => Req::FindNumbered { tag, constraint, numbered: format!("50#{}", 1 + w.below(2)) },
                 25 | 26 => Req::Peek { tag },
@@ -791,6 +896,8 @@ impl Engine for C16 {
                 32 => Req::CloneTracker,
                 33 => Req::Retokenise,
                 34..=37 => Req::Split { cfg: w.below(64) },
+                40..=42 => Req::MarkAhead { tag: TagRef::KeyOf(w.below(1000)), nth: w.below(8) },
+                43..=45 => Req::FindInSeq { cfg: w.below(64), seq: w.below(3), tag, constraint },
                 _ => Req::Repetitive { marker: if w.chance(1, 2) { TagRef::Literal((*w.pick(&["21", "61", "20", "23", "32B"])).to_string()) } else { TagRef::KeyOf(w.below(1000)) } },
             };
             script.push(Step { consumer: s.below(consumers), req });
@@ -836,6 +943,9 @@ impl Engine for C16 {
         let res = on_fresh_thread(move || {
             let mut out = o2;
             let _a = seam::attach(&ctx2);
+            // key this (scheduler) thread's RandomState now, under E_w, so that no
+            // later map created on it draws from the operations-phase stream
+            let _ = std::collections::hash_map::RandomState::new();
             // generation phase (under E_w)
             let (mut occs, mut crlf) = (vec![], spec2.crlf);
             match (&spec2.text, &sc) {
@@ -859,7 +969,7 @@ impl Engine for C16 {
                     // the envelope terminator is not part of the field list
                     let b4 = b4.trim_end().strip_suffix("\n-").unwrap_or(b4.trim_end()).to_string();
                     match ref_tokenise(&b4) {
-                        Some(v) => occs = v.into_iter().map(|(t, c)| Occ { tag: t, content: c, blank_after: false, pad: false }).collect(),
+                        Some(v) => occs = v.into_iter().map(|(t, c)| Occ { tag: t, content: c, blank_after: false, pad: false, crlf: false }).collect(),
                         None => {
                             out.discard = Some("published block 4 not segmentable by the reference tokeniser".into());
                             return (out, None);
@@ -951,7 +1061,7 @@ impl Engine for C16 {
         };
         out.absorb_ctx(&ctx);
         out.sim_ns = 0;
-        let shape: Vec<String> = spec.script.iter().map(|s| format!("{}{}", s.consumer, match &s.req { Req::Find { constraint, .. } => if constraint.is_some() { "Fc" } else { "F" }, Req::FindNumbered { .. } => "N", Req::Peek { .. } => "P", Req::Take { .. } => "T", Req::Remark { .. } => "R", Req::MarkForeign { .. } => "M", Req::CloneTracker => "C", Req::Retokenise => "K", Req::Split { .. } => "S", Req::Repetitive { .. } => "I" })).collect();
+        let shape: Vec<String> = spec.script.iter().map(|s| format!("{}{}", s.consumer, match &s.req { Req::Find { constraint, .. } => if constraint.is_some() { "Fc" } else { "F" }, Req::FindNumbered { .. } => "N", Req::Peek { .. } => "P", Req::Take { .. } => "T", Req::Remark { .. } => "R", Req::MarkForeign { .. } => "M", Req::CloneTracker => "C", Req::Retokenise => "K", Req::Split { .. } => "S", Req::Repetitive { .. } => "I", Req::MarkAhead { .. } => "A", Req::FindInSeq { .. } => "Q" })).collect();
         out.shape_digest = fnv_str(&shape.join(" "));
         out.count(&format!("consumers.{}", spec.consumers.clamp(1, 4)), 1);
         (out, resolved)
@@ -1018,6 +1128,7 @@ impl Engine for C16 {
                     tt[k].content = "X".into();
                     tt[k].blank_after = false;
                     tt[k].pad = false;
+                    tt[k].crlf = false;
                     s.text = Some(tt);
                     v.push(s);
                 }
